@@ -92,6 +92,19 @@ def all_cases(tier):
             defs = list(kdefs) + [UNRELATED[1]]
             cases.append((f"deep{k}/{pname}", "undefined", inner, defs, []))
             cases.append((f"deep{k}/{pname}", "undefined", inner, [], defs))
+    # chains: the rule uses @k, whose body mentions @j, whose body mentions X - every order of the definitions (so @j may be
+    # listed before or after the macro that brings it into the tree) x every split between rule file and extra file
+    CHAIN_J = {"j_item": lambda X: {"name": "@j", "pattern": [{"$or": ["mov", X]}]}, "j_operand": lambda X: {"name": "@j", "pattern": [{"mov": [X, "rbx"]}]},
+               "j_key": lambda X: {"name": "@j", "pattern": [{X: {"times": 2}}]}, "j_string": lambda X: {"name": "@j", "pattern": "m" + X}}
+    CHAIN_K = {"j_item": {"name": "@k", "pattern": [{"$or": ["@j", "nop"]}]}, "j_operand": {"name": "@k", "pattern": [{"$and": ["@j", "nop"]}]},
+               "j_key": {"name": "@k", "pattern": ["@j", "nop"]}, "j_string": {"name": "@k", "pattern": [{"@j": ["rax"]}]}}
+    for jn, mkj in CHAIN_J.items():
+        for status, xdef in XDEFS.items():
+            defs = [CHAIN_K[jn], mkj(X)] + ([xdef] if xdef else [])
+            for order in itertools.permutations(range(len(defs))):
+                ordered = [defs[i] for i in order]
+                for loc in itertools.product((0, 1), repeat=len(ordered)):
+                    cases.append((f"chain/{jn}", status, ["@k", "ret"], [d for d, l in zip(ordered, loc) if l == 0], [d for d, l in zip(ordered, loc) if l == 1]))
     # macro definitions whose own name lacks '@'
     for bad in ("k", "x@k", " @k"):
         cases.append(("badname", "n/a", ["mov", "@z"], [{"name": bad, "pattern": "mov"}, {"name": "@z", "pattern": "ret"}], []))
@@ -154,7 +167,7 @@ def run_shard(shard, tier, h, res, known):
         pname, status, pat, rf, ef = cases[ci]
         res.evaluations += 1
         kind, out, doc = run_one(h, pat, rf, ef)
-        if status == "undefined" or pname.startswith("body") or pname.startswith("macro_arg"):
+        if status == "undefined" or pname.startswith("body") or pname.startswith("macro_arg") or pname.startswith("chain"):
             res.nontrivial += 1
         res.count(f"{kind}")
         bad = judge(pname, kind, out)
